@@ -60,6 +60,25 @@ PairCountOf(tt, cc, l, b, a1, a2, k) ==
                   /\ (tt[p[2]] - tt[p[1]]) \div b = k})
 CorrectOf(tt, cc, l, b, h, cnt) ==
    \A a1 \in 1..Len(l), a2 \in 1..Len(l), k \in 0..h : cnt[a1][a2][k + 1] = PairCountOf(tt, cc, l, b, a1, a2, k)
+SortedTimes(tt) == LET S == SeqSet(tt) IN
+                   [r \in 1..Cardinality(S) |-> CHOOSE x \in S : Cardinality({y \in S : y < x}) = r - 1]
+\* The same count for a LONG DENSE train given as a bag: tv = the distinct times (increasing), nn[u][a] = number of
+\* spikes of cluster l[a] at time tv[u]; spikes sharing a time are ordered by the position of their cluster in l.
+\* (Grouping equal spikes: pairs at different times multiply, pairs at one time are C(n, 2) within a cluster and
+\* go to the (earlier, later) direction between two clusters.)
+PairBagOf(tv, nn, b, a1, a2, k) ==
+   SumSeq([u \in 1..Len(tv) |-> SumSeq([v \in 1..Len(tv) |->
+              IF u < v /\ (tv[v] - tv[u]) \div b = k THEN nn[u][a1] * nn[v][a2] ELSE 0])])
+   + (IF k = 0 THEN SumSeq([u \in 1..Len(tv) |->
+              IF a1 = a2 THEN (nn[u][a1] * (nn[u][a1] - 1)) \div 2 ELSE IF a1 < a2 THEN nn[u][a1] * nn[u][a2] ELSE 0])
+      ELSE 0)
+CorrectBagOf(tv, nn, l, b, h, cnt) ==
+   \A a1 \in 1..Len(l), a2 \in 1..Len(l), k \in 0..h : cnt[a1][a2][k + 1] = PairBagOf(tv, nn, b, a1, a2, k)
+\* (the two formulations agree: checked by TLC on every small train, BagAgrees)
+BagOfTrain(tt, cc, l) ==
+   LET tvs == SortedTimes(tt) IN
+   [tv |-> tvs, nn |-> [u \in 1..Len(tvs) |-> [a \in 1..Len(l) |->
+                          Cardinality({i \in 1..Len(tt) : tt[i] = tvs[u] /\ cc[i] = l[a]})]]]
 \* cnt1 = one-sided result (bins 1..h+1 <-> lags 0..h), s = symmetrised (bins 1..2h+1 <-> lags -h..h)
 SymOkOf(l, h, cnt1, s) ==
    \A i \in 1..Len(l), j \in 1..Len(l) :
@@ -68,6 +87,12 @@ SymOkOf(l, h, cnt1, s) ==
       /\ \A k \in 1..h : s[i][j][k + h + 1] = cnt1[i][j][k + 1]
       /\ s[i][j][h + 1] = Max2(cnt1[i][j][1], cnt1[j][i][1])
 AsSeqs(cnt, h) == [i \in 1..Len(cnt) |-> [j \in 1..Len(cnt) |-> [k \in 1..(h + 1) |-> cnt[i][j][k - 1]]]]
+\* a train whose equal-time spikes are ordered by cluster position
+BlockOrdered(tt, cc, l) == \A i \in 1..(Len(tt) - 1) : tt[i] = tt[i + 1] => IndexIn(l, cc[i]) <= IndexIn(l, cc[i + 1])
+BagAgrees == (pc = "loop" /\ shift = 1 /\ BlockOrdered(t, c, ids)) =>
+                \A bg \in {BagOfTrain(t, c, ids)} :
+                \A a1 \in 1..Len(ids), a2 \in 1..Len(ids), k \in 0..half :
+                   PairBagOf(bg.tv, bg.nn, bin, a1, a2, k) = PairCountOf(t, c, ids, bin, a1, a2, k)
 Correct == pc \in {"sym", "done"} => CorrectOf(t, c, ids, bin, half, AsSeqs(counts, half))
 SymOk == pc = "done" => SymOkOf(ids, half, AsSeqs(counts, half), sym)
 Terminates == <>(pc = "done")
